@@ -180,7 +180,7 @@ theorem solve_preserves (P : RS → Prop) (strategy : Nat) (eps : Rat)
     ∀ (fuel : Nat) (s : RS) (counter it : Nat), P s → P (solve strategy eps fuel s counter it).1 := by
   intro fuel
   induction fuel with
-  | zero => intro s _ _ h; exact h
+  | zero => intro s _ _ h; exact hun s h
   | succ fuel ih =>
     intro s counter it h
     obtain ⟨hev, hnext⟩ := solveIter_preserves P strategy eps hun hsh hsmo s counter h
@@ -460,7 +460,7 @@ theorem solve_sum_svm_partial (eps : Rat) (heps : 0 < eps) :
       alphaSum (solve 1 eps fuel s counter it).1 = c := by
     intro c fuel
     induction fuel with
-    | zero => intro s _ _ h he hc _; exact ⟨h, he, hc⟩
+    | zero => intro s _ _ h he hc _; exact ⟨inv_unshrink h, (unshrink_eqc s).trans he, (orderFree_alphaSum.unshrink s).trans hc⟩
     | succ fuel ih =>
       intro s counter it h he hc hr
       have hrs : SentinelOK s := hr s (by unfold C08.passStates; exact List.mem_cons_self ..)
